@@ -47,7 +47,7 @@ func replayAny(c *vfw.Ctx, t *testing.T) {
 		if sc.Name != r.Scenario {
 			continue
 		}
-		res := e3.RunOnce(t, sc, r.Choices, nil)
+		res := e3.RunOnce(t, sc, r.Choices, nil, r.Demote)
 		c.Case(true)
 		if res.Diverged != "" {
 			c.HarnessError("replay diverged: %s", res.Diverged)
